@@ -518,6 +518,7 @@ class Inliner:
                 return None
             out = pre + _map_returns(body, mk)
         out = _forward_temps(out)
+        out = _split_tuple_assign(out)
         out = _rename_result_temps(out)
         out = _plain_names(out, local_names, h)
         for n in out:
@@ -3680,6 +3681,100 @@ def normalise_map_lambda(tree):
     return n[0]
 
 
+def normalise_local_consts(tree):
+    """a local bound once, at the top level of its function, to a constant expression - literals, ALL-CAPS names (constants of the
+    package, never bound inside the function) and arithmetic over them - stands for that expression: written in at every read.
+    (Evaluating it again gives the same value; nothing is evaluated in a different order that could have an effect.)"""
+    import re as _re
+    n = 0
+    for fn in [f for f in ast.walk(tree) if isinstance(f, (ast.FunctionDef, ast.AsyncFunctionDef))]:
+        stores = {}
+        for x in ast.walk(fn):
+            if isinstance(x, ast.Name) and isinstance(x.ctx, (ast.Store, ast.Del)):
+                stores[x.id] = stores.get(x.id, 0) + 1
+            elif isinstance(x, ast.arg):
+                stores[x.arg] = stores.get(x.arg, 0) + 1
+            elif isinstance(x, (ast.Global, ast.Nonlocal)):
+                for nm in x.names:
+                    stores[nm] = stores.get(nm, 0) + 2
+        if any(isinstance(x, (ast.FunctionDef, ast.AsyncFunctionDef, ast.Lambda, ast.ClassDef)) and x is not fn for x in ast.walk(fn)):
+            continue  # closures may read the local later: left alone
+
+        def const_expr(e, known):
+            if isinstance(e, ast.Constant):
+                return isinstance(e.value, (int, float)) and not isinstance(e.value, bool)
+            if isinstance(e, ast.Name):
+                return (bool(_re.fullmatch(r"[A-Z][A-Z0-9_]*", e.id)) and e.id not in stores) or e.id in known
+            if isinstance(e, ast.BinOp) and isinstance(e.op, (ast.Add, ast.Sub, ast.Mult, ast.FloorDiv)):
+                return const_expr(e.left, known) and const_expr(e.right, known)
+            if isinstance(e, ast.UnaryOp) and isinstance(e.op, (ast.USub, ast.UAdd)):
+                return const_expr(e.operand, known)
+            return False
+        known = {}
+        for st in fn.body:
+            if isinstance(st, ast.Assign) and len(st.targets) == 1 and isinstance(st.targets[0], ast.Name) and stores.get(st.targets[0].id) == 1 \
+                    and not _re.fullmatch(r"[A-Z][A-Z0-9_]*", st.targets[0].id) and const_expr(st.value, known):
+                known[st.targets[0].id] = st.value
+        if not known:
+            continue
+        # only worth it when one of them stands for a named constant of the package (a plain `i = 0` is left alone)
+        if not any(isinstance(x, ast.Name) for v in known.values() for x in ast.walk(v)):
+            continue
+
+        def expand(e, depth=0):
+            class S(ast.NodeTransformer):
+                def visit_Name(self, node):
+                    if isinstance(node.ctx, ast.Load) and node.id in known and depth < 6:
+                        return ast.copy_location(expand(_clone(known[node.id]), depth + 1), node)
+                    return node
+            return S().visit(e)
+        new_body = []
+        for st in fn.body:
+            if isinstance(st, ast.Assign) and len(st.targets) == 1 and isinstance(st.targets[0], ast.Name) and st.targets[0].id in known and st.value is known[st.targets[0].id]:
+                n += 1
+                continue
+            new_body.append(expand(st))
+        fn.body = new_body or [ast.Pass()]
+    if n:
+        ast.fix_missing_locations(tree)
+    return n
+
+
+def normalise_return_sinking(tree):
+    """a function that ends in `while True:` (no else) whose every exit is `return E` with one and the same side-effect-free E, all at
+    loop level (through ifs only): the returns are `break`s and `return E` follows the loop (E is evaluated in the same state)"""
+    n = 0
+    for fn in [f for f in ast.walk(tree) if isinstance(f, (ast.FunctionDef, ast.AsyncFunctionDef))]:
+        if not fn.body or not isinstance(fn.body[-1], ast.While):
+            continue
+        w = fn.body[-1]
+        if not (isinstance(w.test, ast.Constant) and w.test.value is True) or w.orelse:
+            continue
+        rets = []
+
+        def collect(sts):
+            for st in sts:
+                if isinstance(st, ast.Return):
+                    rets.append((sts, st))
+                elif isinstance(st, ast.If):
+                    collect(st.body)
+                    collect(st.orelse)
+        collect(w.body)
+        all_rets = [x for x in ast.walk(w) if isinstance(x, ast.Return)]
+        if not rets or len(all_rets) != len(rets) or any(isinstance(x, (ast.Break, ast.Yield, ast.YieldFrom)) for x in ast.walk(w)):
+            continue
+        if any(r.value is None or not pure(r.value) for _l, r in rets) or len({ast.dump(r.value) for _l, r in rets}) != 1:
+            continue
+        final = ast.copy_location(ast.Return(value=_clone(rets[0][1].value)), rets[-1][1])
+        for lst, r in rets:
+            lst[lst.index(r)] = ast.copy_location(ast.Break(), r)
+        fn.body.append(final)
+        n += 1
+    if n:
+        ast.fix_missing_locations(tree)
+    return n
+
+
 def normalise_and_if(tree):
     """`if A and B: S` without an else branch is `if A: if B: S` (the operands are evaluated in the same order and S runs
     exactly when all of them are true); path-based rules then see one decision per operand"""
@@ -3906,6 +4001,8 @@ def normalise_program(trees):
         n_ = normalise_match(tree)
         n_ += normalise_walrus(tree)
         n_ += normalise_suppress(tree)
+        n_ += normalise_return_sinking(tree)
+        n_ += normalise_local_consts(tree)
         n_ += normalise_module_unpack(tree)
         n_ += normalise_straight_factories(tree)
         n_ += normalise_count_loops(tree)
